@@ -3,6 +3,7 @@ package zzverif
 import (
 	"fmt"
 	"math"
+	"os"
 	"sort"
 
 	otter "github.com/maypok86/otter/v2"
@@ -32,8 +33,9 @@ func withProp(ps []string, extra ...string) []string {
 
 // SeqCase is a sequential program: configuration + operations.
 type SeqCase struct {
-	Cfg Cfg  `json:"config"`
-	Ops []Op `json:"ops"`
+	Cfg      Cfg           `json:"config"`
+	Ops      []Op          `json:"ops"`
+	SaveLoad *SaveLoadPlan `json:"saveload,omitempty"`
 }
 
 type seqState struct {
@@ -42,7 +44,83 @@ type seqState struct {
 	evStart  int
 	ldStart  int
 	flexExp  map[int][]int64 // set-valued deadlines: candidates the documentation allows
+	flexRef  map[int][]int64
+	refFree  map[int]bool
 	extraKey map[int]bool
+	pending  []*subOp
+	phase    int // loader invocations of the current operation, in the model's order
+}
+
+// subOp is one write / removal an operation performs on the model. Application is deferred until
+// the event stream of the operation is processed, because automatic removals (eviction, expiration)
+// may interleave with the sub-operations of one call (e.g. BulkGet installing several keys).
+type subOp struct {
+	k       int
+	remove  bool
+	v       int
+	kind    string
+	applied bool
+	// fromCall: the write is the installation of a loader result for a requested key. If the key is
+	// evicted / expired between the start of the load and the installation, the result is handed to
+	// the caller but need not be cached (C08/C09: "unless the key was written, invalidated or evicted
+	// in between") - the model then accepts both outcomes and adopts the observed one.
+	fromCall   bool
+	mayDiscard bool
+	// volunteered: a key the bulk loader supplied without being asked. Which refresh rule
+	// (update or reload) applies to it is not specified: both deadlines are accepted.
+	volunteered bool
+	// optional: a removal that may or may not happen (a load, not a reload, that reports a
+	// requested key as not found while the same call's other loader invocation volunteered it).
+	optional bool
+}
+
+func (s *seqState) pendWrite(k, v int, kind string) {
+	s.pending = append(s.pending, &subOp{k: k, v: v, kind: kind})
+}
+func (s *seqState) pendRemove(k int) { s.pending = append(s.pending, &subOp{k: k, remove: true}) }
+func (s *seqState) pendLoadWrite(k, v int, kind string) {
+	s.pending = append(s.pending, &subOp{k: k, v: v, kind: kind, fromCall: true})
+}
+func (s *seqState) pendLoadRemove(k int) {
+	s.pending = append(s.pending, &subOp{k: k, remove: true, fromCall: true})
+}
+
+func (s *seqState) firstPending(k int) *subOp {
+	for _, p := range s.pending {
+		if !p.applied && p.k == k {
+			return p
+		}
+	}
+	return nil
+}
+
+// applySub applies a sub-operation and returns the deletion event it must produce.
+func (s *seqState) applySub(p *subOp) *expEvent {
+	p.applied = true
+	if p.remove {
+		return s.m.remove(p.k)
+	}
+	if _, open := s.flexRef[p.k]; open && s.m.cfg.withRefresh() {
+		// a second write to a key whose refresh deadline is already set-valued within this
+		// operation: the final deadline depends on the unresolved choice - adopt what is observed.
+		s.refFree[p.k] = true
+		delete(s.flexRef, p.k)
+	} else if p.volunteered && s.m.cfg.withRefresh() && s.m.visible(p.k) != nil {
+		vis := s.m.visible(p.k)
+		var cands []int64
+		for _, d := range []int64{s.m.cfg.refUpdate(p.k, p.v), s.m.cfg.refReload(p.k, p.v)} {
+			if d > 0 {
+				x, _ := addDeadline(s.m.now, d)
+				cands = append(cands, x)
+			} else {
+				cands = append(cands, vis.Ref)
+			}
+		}
+		s.flexRef[p.k] = cands
+	} else {
+		delete(s.flexRef, p.k)
+	}
+	return s.m.write(p.k, p.v, p.kind)
 }
 
 func sameRes(gotV int, gotOk bool, wantV int, wantOk bool) bool {
@@ -57,12 +135,8 @@ func (s *seqState) applySeq(op *Op, res *Result) {
 	evs := r.Events[s.evStart:]
 	loads := r.Loads[s.ldStart:]
 	s.evStart, s.ldStart = len(r.Events), len(r.Loads)
-	var explicit []*expEvent
-	addEx := func(e *expEvent) {
-		if e != nil {
-			explicit = append(explicit, e)
-		}
-	}
+	s.pending = s.pending[:0]
+	s.phase = 0
 	base := P("C01")
 	keyOp := true
 	switch op.Kind {
@@ -102,14 +176,14 @@ func (s *seqState) applySeq(op *Op, res *Result) {
 		} else {
 			ret(op.V, true)
 		}
-		addEx(m.write(k, op.V, "set"))
+		s.pendWrite(k, op.V, "set")
 	case "setifabsent":
 		if vis != nil {
 			ret(vis.V, false)
 			m.readEffect(k)
 		} else {
 			ret(op.V, true)
-			addEx(m.write(k, op.V, "set"))
+			s.pendWrite(k, op.V, "set")
 		}
 	case "get":
 		if vis != nil {
@@ -131,7 +205,7 @@ func (s *seqState) applySeq(op *Op, res *Result) {
 				if e.K != k || e.W != vis.W {
 					m.fail(base, "ret.getentry-fields", k, "entry %+v model %+v", *e, *vis)
 				}
-				okExp := (e.Exp == pre.Exp && !pre.ExpNever) || (e.Exp == vis.Exp && !vis.ExpNever) || (pre.ExpNever && vis.ExpNever)
+				okExp := vis.ExpNever || pre.ExpNever || e.Exp == pre.Exp || e.Exp == vis.Exp
 				if !okExp {
 					m.fail(withProp(base, "C12"), "ret.getentry-expiry", k, "ExpiresAtNano=%d, model pre=%d post=%d", e.Exp, pre.Exp, vis.Exp)
 				}
@@ -168,7 +242,7 @@ func (s *seqState) applySeq(op *Op, res *Result) {
 		} else {
 			m.Probes["stats-ambiguous"]++
 		}
-		s.applyComp(op, res, vis, base, &explicit)
+		s.applyComp(op, res, vis, base)
 	case "computeifabsent":
 		if vis != nil {
 			ret(vis.V, true)
@@ -191,7 +265,7 @@ func (s *seqState) applySeq(op *Op, res *Result) {
 				}
 			default:
 				ret(op.V, true)
-				addEx(m.write(k, op.V, "set"))
+				s.pendWrite(k, op.V, "set")
 			}
 		}
 	case "computeifpresent":
@@ -210,7 +284,7 @@ func (s *seqState) applySeq(op *Op, res *Result) {
 			if res.CompCalls == 1 && res.CompSaw != vis.V {
 				m.fail(base, "compute.saw", k, "callback saw %d, model %d", res.CompSaw, vis.V)
 			}
-			s.applyComp(op, res, vis, base, &explicit)
+			s.applyComp(op, res, vis, base)
 		}
 	case "invalidate":
 		if vis != nil {
@@ -218,7 +292,7 @@ func (s *seqState) applySeq(op *Op, res *Result) {
 		} else {
 			ret(0, false)
 		}
-		addEx(m.remove(k))
+		s.pendRemove(k)
 	case "invalidateall":
 		unexpectedPanic()
 		ks := make([]int, 0, len(m.m))
@@ -227,7 +301,7 @@ func (s *seqState) applySeq(op *Op, res *Result) {
 		}
 		sort.Ints(ks)
 		for _, kk := range ks {
-			addEx(m.remove(kk))
+			s.pendRemove(kk)
 		}
 	case "setexpires":
 		unexpectedPanic()
@@ -246,13 +320,13 @@ func (s *seqState) applySeq(op *Op, res *Result) {
 			vis.Ref, vis.RefNever = addDeadline(m.now, op.D)
 		}
 	case "load":
-		expectLoads = s.applyLoad(op, res, vis, base, &explicit, loads)
+		expectLoads = s.applyLoad(op, res, vis, base, loads)
 	case "bulkget":
-		expectLoads = s.applyBulkGet(op, res, &explicit, loads)
+		expectLoads = s.applyBulkGet(op, res, loads)
 	case "refresh":
-		expectLoads = s.applyRefresh(op, res, vis, base, &explicit, loads)
+		expectLoads = s.applyRefresh(op, res, vis, base, loads)
 	case "bulkrefresh":
-		expectLoads = s.applyBulkRefresh(op, res, &explicit, loads)
+		expectLoads = s.applyBulkRefresh(op, res, loads)
 	case "all", "keys", "values", "hottest", "coldest":
 		unexpectedPanic()
 		s.cmpIter(op, res)
@@ -298,13 +372,13 @@ func (s *seqState) applySeq(op *Op, res *Result) {
 		m.fail(P("C11", "C10"), "load.unexpected", k, "%s invoked a loader %d times", op.Kind, len(loads))
 	}
 	_ = expectLoads
-	s.matchEvents(op, evs, explicit)
+	s.matchEvents(op, evs)
 	if op.Kind == "cleanup" {
 		s.checkSwept()
 	}
 }
 
-func (s *seqState) applyComp(op *Op, res *Result, vis *mEntry, base []string, explicit *[]*expEvent) {
+func (s *seqState) applyComp(op *Op, res *Result, vis *mEntry, base []string) {
 	m := s.m
 	k := op.K
 	chk := func(wantV int, wantOk bool) {
@@ -317,14 +391,10 @@ func (s *seqState) applyComp(op *Op, res *Result, vis *mEntry, base []string, ex
 	switch op.Comp {
 	case "write":
 		chk(op.V, true)
-		if e := m.write(k, op.V, "set"); e != nil {
-			*explicit = append(*explicit, e)
-		}
+		s.pendWrite(k, op.V, "set")
 	case "inval":
 		chk(0, false)
-		if e := m.remove(k); e != nil {
-			*explicit = append(*explicit, e)
-		}
+		s.pendRemove(k)
 	case "cancel":
 		if vis != nil {
 			chk(vis.V, true)
@@ -375,7 +445,23 @@ func (s *seqState) cmpEntry(props []string, rule string, k int, got EntryView, e
 	} else if got.Exp != math.MaxInt64 {
 		m.fail(withProp(props, "C12"), rule+"-expiry", k, "ExpiresAtNano=%d without expiry", got.Exp)
 	}
-	if m.cfg.withRefresh() {
+	if s.refFree[k] && m.cfg.withRefresh() {
+		e.Ref, e.RefNever = got.Ref, false
+		delete(s.refFree, k)
+		m.Probes["refresh-deadline-adopted"]++
+	} else if cands, ok := s.flexRef[k]; ok && m.cfg.withRefresh() {
+		hit := false
+		for _, c := range cands {
+			if got.Ref == c {
+				hit = true
+				e.Ref, e.RefNever = c, false
+			}
+		}
+		if !hit {
+			m.fail(withProp(props, "C12", "C11"), rule+"-refresh", k, "RefreshableAtNano=%d, model allows %v (now %d)", got.Ref, cands, m.now)
+		}
+		delete(s.flexRef, k)
+	} else if m.cfg.withRefresh() {
 		if !e.RefNever && got.Ref != e.Ref {
 			m.fail(withProp(props, "C12", "C11"), rule+"-refresh", k, "RefreshableAtNano=%d, model %d (now %d)", got.Ref, e.Ref, m.now)
 		}
@@ -471,47 +557,53 @@ func (s *seqState) cmpStats(res *Result) {
 	}
 }
 
-// matchEvents: every explicit event exactly once; every other atomic event must be a truthful
-// automatic removal of an entry the model holds; OnDeletion mirrors OnAtomicDeletion (sync executor).
-func (s *seqState) matchEvents(op *Op, evs []Event, explicit []*expEvent) {
+// matchEvents processes the operation's atomic deletion events in order. An event either is the
+// explicit consequence of one of the operation's sub-operations (the value it replaced / removed),
+// or an automatic removal (Overflow / Expiration) of a value the model holds, which must be
+// truthful. OnDeletion must mirror OnAtomicDeletion (same-goroutine executor).
+func (s *seqState) matchEvents(op *Op, evs []Event) {
 	m := s.m
-	used := make([]bool, len(explicit))
 	type key struct {
 		k, v  int
 		cause otter.DeletionCause
 	}
 	atomicSet := map[key]int{}
 	asyncSet := map[key]int{}
-	for _, ev := range evs {
-		kk := key{ev.K, ev.V, ev.Cause}
-		if !ev.Atomic {
-			asyncSet[kk]++
-			continue
+	checkExplicit := func(ex *expEvent, ev Event) {
+		if ev.Cause == otter.CauseExpiration && ex != nil {
+			// an expired entry displaced by a write may or may not have been counted as an eviction
+			// (it may equally have been swept just before): upper bound only
+			m.evictions++
+			m.evictWeight += uint64(m.cfg.weightOf(ex.v))
 		}
-		atomicSet[kk]++
-		matched := false
-		for i, ex := range explicit {
-			if !used[i] && ex.k == ev.K && ex.v == ev.V {
-				used[i] = true
-				matched = true
-				if ex.cause != ev.Cause {
-					props := P("C06")
-					if ex.cause == otter.CauseExpiration || ev.Cause == otter.CauseExpiration {
-						props = P("C06", "C03")
-					}
-					m.fail(props, "event.cause", ev.K, "%s: value %d of key %d reported with cause %s, expected %s", op.Kind, ev.V, ev.K, causeStr(ev.Cause), causeStr(ex.cause))
-				}
-				break
+		if ex == nil {
+			m.fail(P("C06", "C01"), "event.unexpected", ev.K, "%s: deletion event key=%d value=%d cause=%s but nothing was replaced", op.Kind, ev.K, ev.V, causeStr(ev.Cause))
+			return
+		}
+		if ex.v != ev.V {
+			m.fail(P("C06", "C01"), "event.value", ev.K, "%s: deletion event for key %d reports value %d, the value that stopped being current is %d", op.Kind, ev.K, ev.V, ex.v)
+		} else if ex.cause != ev.Cause {
+			props := P("C06")
+			if ex.cause == otter.CauseExpiration || ev.Cause == otter.CauseExpiration {
+				props = P("C06", "C03")
+			}
+			m.fail(props, "event.cause", ev.K, "%s: value %d of key %d reported with cause %s, expected %s", op.Kind, ev.V, ev.K, causeStr(ev.Cause), causeStr(ex.cause))
+		}
+	}
+	pendingWeight := func() uint64 {
+		var w uint64
+		for _, p := range s.pending {
+			if !p.applied && !p.remove {
+				w += uint64(m.cfg.weightOf(p.v))
 			}
 		}
-		if matched {
-			continue
-		}
-		// automatic removal
+		return w
+	}
+	automatic := func(ev Event) {
 		me := m.m[ev.K]
 		if me == nil || me.V != ev.V {
 			m.fail(P("C06", "C01"), "event.unexpected", ev.K, "%s: deletion event key=%d value=%d cause=%s for a value the model does not hold", op.Kind, ev.K, ev.V, causeStr(ev.Cause))
-			continue
+			return
 		}
 		switch ev.Cause {
 		case otter.CauseExpiration:
@@ -523,7 +615,7 @@ func (s *seqState) matchEvents(op *Op, evs []Event, explicit []*expEvent) {
 			m.evictWeight += uint64(me.W)
 		case otter.CauseOverflow:
 			m.Probes["auto-overflow"]++
-			tot := m.physWeight()
+			tot := m.physWeight() + pendingWeight()
 			switch {
 			case !m.cfg.bounded():
 				m.fail(P("C07"), "event.overflow-unbounded", ev.K, "Overflow in a cache without a size bound")
@@ -540,9 +632,89 @@ func (s *seqState) matchEvents(op *Op, evs []Event, explicit []*expEvent) {
 			m.fail(P("C06", "C07"), "event.unsanctioned-removal", ev.K, "%s: key %d value %d removed with cause %s without being asked", op.Kind, ev.K, ev.V, causeStr(ev.Cause))
 		}
 		delete(m.m, ev.K)
+		// an automatic removal clears the key's in-flight load: results of loads of this key that
+		// are still to be installed by this operation may legitimately be dropped
+		for _, p := range s.pending {
+			if !p.applied && p.k == ev.K && p.fromCall {
+				p.mayDiscard = true
+			}
+		}
 	}
-	for i, ex := range explicit {
-		if !used[i] {
+	for _, ev := range evs {
+		kk := key{ev.K, ev.V, ev.Cause}
+		if !ev.Atomic {
+			asyncSet[kk]++
+			continue
+		}
+		atomicSet[kk]++
+		pw := s.firstPending(ev.K)
+		if pw != nil {
+			cur := m.m[ev.K]
+			if cur != nil && cur.V == ev.V {
+				expired := m.visible(ev.K) == nil
+				ambiguous := pw.fromCall && ev.Cause == otter.CauseExpiration && expired
+				if !ambiguous && (ev.Cause == otter.CauseReplacement || ev.Cause == otter.CauseInvalidation || (ev.Cause == otter.CauseExpiration && expired)) {
+					checkExplicit(s.applySub(pw), ev)
+				} else {
+					automatic(ev) // removed automatically before the sub-operation reached the key
+				}
+				continue
+			}
+			// the event reports a value that this operation itself installs (it is removed or
+			// replaced again within the operation): bring the model up to that sub-operation first
+			var target *subOp
+			for _, p := range s.pending {
+				if !p.applied && p.k == ev.K && !p.remove && p.v == ev.V {
+					target = p
+					break
+				}
+			}
+			if target != nil {
+				for _, q := range s.pending {
+					if q == target {
+						break
+					}
+					if q.applied || q.k != ev.K {
+						continue
+					}
+					if q.mayDiscard {
+						q.applied = true // its result was dropped: an installation would have been reported
+						continue
+					}
+					if ex := s.applySub(q); ex != nil {
+						m.fail(P("C06"), "event.missing", ex.k, "%s: value %d of key %d stopped being current but no atomic deletion event (%s) was delivered", op.Kind, ex.v, ex.k, causeStr(ex.cause))
+					}
+				}
+				if ex := s.applySub(target); ex != nil {
+					m.fail(P("C06"), "event.missing", ex.k, "%s: value %d of key %d stopped being current but no atomic deletion event (%s) was delivered", op.Kind, ex.v, ex.k, causeStr(ex.cause))
+				}
+				if nx := s.firstPending(ev.K); nx != nil && (ev.Cause == otter.CauseReplacement || ev.Cause == otter.CauseInvalidation) {
+					checkExplicit(s.applySub(nx), ev)
+				} else {
+					automatic(ev)
+				}
+				continue
+			}
+		}
+		automatic(ev)
+	}
+	for _, p := range s.pending {
+		if p.applied {
+			continue
+		}
+		if p.optional {
+			p.applied = true
+			continue
+		}
+		if p.mayDiscard {
+			m.Probes["load-result-discarded-or-kept-after-eviction"]++
+			e, ok := s.r.C.GetEntryQuietly(p.k)
+			if p.remove || !ok || e.Value != p.v {
+				p.applied = true
+				continue
+			}
+		}
+		if ex := s.applySub(p); ex != nil {
 			m.fail(P("C06"), "event.missing", ex.k, "%s: value %d of key %d stopped being current but no atomic deletion event (%s) was delivered", op.Kind, ex.v, ex.k, causeStr(ex.cause))
 		}
 	}
@@ -607,6 +779,12 @@ func (s *seqState) compareState(keys int) {
 	for k := range s.flexExp {
 		delete(s.flexExp, k)
 	}
+	for k := range s.flexRef {
+		delete(s.flexRef, k)
+	}
+	for k := range s.refFree {
+		delete(s.refFree, k)
+	}
 }
 
 // SeqOutcome is the result of one sequential run.
@@ -631,7 +809,7 @@ func RunSeq(seed uint64, sc *SeqCase, gen *OpGen, nops int, stopAtFirst bool) *S
 	w := simrt.Run(simrt.Config{Seed: seed, Parallelism: cfg.Parallelism, HashMode: cfg.HashMode, PoolMode: cfg.PoolMode, ClockOrigin: cfg.ClockOrigin, MaxSteps: 50_000_000}, func(w *simrt.World) {
 		r := NewRunner(w, &cfg)
 		m := NewModel(&cfg)
-		s := &seqState{m: m, r: r, flexExp: map[int][]int64{}, extraKey: map[int]bool{}}
+		s := &seqState{m: m, r: r, flexExp: map[int][]int64{}, flexRef: map[int][]int64{}, refFree: map[int]bool{}, extraKey: map[int]bool{}}
 		ctx := &taskCtx{id: 0, opIdx: -1}
 		simrt.Cur().Tag = ctx
 		if gen == nil {
@@ -659,6 +837,19 @@ func RunSeq(seed uint64, sc *SeqCase, gen *OpGen, nops int, stopAtFirst bool) *S
 				}
 			}
 			res := r.Exec(op)
+			if Trace {
+				fmt.Printf("[%d] now=%d %s -> v=%d ok=%v err=%q panic=%v map=%v entry=%+v refresh=%v num=%d entries=%v\n", i, w.Now, op, res.V, res.Ok, res.Err, res.Panic, res.Map, res.Entry, res.Refresh, res.Num, res.Entries)
+				for _, ev := range r.Events[s.evStart:] {
+					fmt.Printf("      event atomic=%v k=%d v=%d cause=%s\n", ev.Atomic, ev.K, ev.V, ev.Cause)
+				}
+				for _, l := range r.Loads[s.ldStart:] {
+					fmt.Printf("      load keys=%v reload=%v olds=%v ret=%v outcome=%s\n", l.Keys, l.Reload, l.Olds, l.Ret, l.Outcome)
+				}
+				fmt.Printf("      raw=%v\n", otter.VerifRawEntries(r.C))
+				if a := otter.VerifAuditCache(r.C, w.Now); len(a.Problems) > 0 || a.InFlight > 0 {
+					fmt.Printf("      audit inflight=%d drain=%d wbuf=%d %v\n", a.InFlight, a.DrainStatus, a.WriteBufferSize, a.Problems)
+				}
+			}
 			s.applySeq(op, &res)
 			w.Log(uint64(i)<<32 ^ uint64(res.V)<<1 ^ b2u(res.Ok))
 			s.compareState(cfg.Keys)
@@ -666,6 +857,9 @@ func RunSeq(seed uint64, sc *SeqCase, gen *OpGen, nops int, stopAtFirst bool) *S
 			if len(m.viol) > 0 && stopAtFirst {
 				break
 			}
+		}
+		if len(m.viol) == 0 && sc.SaveLoad != nil {
+			s.saveLoad(w, sc)
 		}
 		if len(m.viol) == 0 {
 			// final: maintenance, then structural audit and derived views (C04/C05 in sequential form)
@@ -703,4 +897,5 @@ func b2u(b bool) uint64 {
 	return 0
 }
 
-var _ = fmt.Sprintf
+// Trace prints every step of a sequential run (replay debugging).
+var Trace = os.Getenv("VERIF_TRACE") != ""
